@@ -147,35 +147,33 @@ theorem map_ne_error {α β : Type} (r : Except Err α) (g : α → β) (e : Err
   | error e' => intro h'; apply h; simp [Except.map] at h'; rw [h']
   | ok a => intro h'; simp [Except.map] at h'
 
-theorem unary_early (C : Ctx K) (c : Call K) (inp : Operand K) (eff0 : List (Effect K))
+theorem unary_early (C : Ctx K) (c : Call K) (cl : Cls) (u : UnitR K) (d : Data) (eff0 : List (Effect K))
     (h : ∀ os, c.out ≠ .many os)
-    (hr : ((c.ufunc == C.T.multiplyName || c.ufunc == C.T.divideName) && c.method == .reduce) = false)
-    (hrule : (match C.T.ruleOf c.ufunc with | some r => Rule.totalOnOne r | none => false) = true) :
-    Early C c eff0 (unaryPath C c inp eff0) := by
+    (hru : (unaryRuleResult C c u d).toOption.isSome = true) :
+    Early C c eff0 (unaryPath C c (.unyt cl u d) eff0) := by
   intro e
   unfold unaryPath
+  dsimp only
   split
   · intro _; left; rfl
-  · intro _; left; rfl
-  · dsimp only
-    split
+  · split
     · intro _; left; rfl
     · split
-      · intro _; left; rfl
-      · split
-        · rename_i ke hke
-          intro _; right; exact ⟨by rw [hke]; rfl, rfl⟩
-        · rw [hr]
-          simp only [Bool.false_eq_true, if_false]
-          cases hro : C.T.ruleOf c.ufunc with
-          | none => simp [hro] at hrule
-          | some r =>
-            rw [hro] at hrule
-            simp only at hrule
-            intro he
-            exfalso
-            cases r <;> simp [Rule.totalOnOne] at hrule <;> simp only [applyRule1] at he <;>
-              exact map_ne_error _ _ e (wrapUp_never_fails C.T _ c false _ _ _ _ h (wrapClassFails_false _ _ _) e) he
+      · rename_i ke hke
+        intro _; right; exact ⟨by rw [hke]; rfl, rfl⟩
+      · unfold unaryRuleResult at hru
+        generalize (if ((c.ufunc == C.T.multiplyName || c.ufunc == C.T.divideName) && c.method == Method.reduce) = true then
+            Except.map (fun x => ((1 : K), some x)) (powerMapUnit C.T c.ufunc u.v (match c.axisLen with | some n => n | none => d.size))
+          else match C.T.ruleOf c.ufunc with
+            | none => Except.error Err.KeyError
+            | some r => applyRule1 C r u) = ru at hru ⊢
+        cases ru with
+        | error e' => simp [Except.toOption] at hru
+        | ok mu =>
+          dsimp only
+          intro he
+          exfalso
+          exact map_ne_error _ _ e (wrapUp_never_fails C.T _ c false _ _ _ _ h (wrapClassFails_false _ _ _) e) he
 
 theorem mulDivPost_ok_of_not_muldiv (rule : Rule) (u0 u1 : UnitR K) (mul : K) (unit : Option (UnitV K))
     (h : (rule == .multiply || rule == .divide) = false) :
@@ -304,9 +302,11 @@ theorem dispatch_failed_early (C : Ctx K) (c : Call K) (e : Err) (hg : ufuncGuar
     dsimp only
     split
     · rename_i inp hinp
-      rw [hinp] at hin
-      simp only [Bool.and_eq_true, Bool.not_eq_true'] at hin
-      exact unary_early C c inp _ h hin.1 hin.2
+      rw [hinp] at hin hany
+      cases inp with
+      | unyt cl u d => exact unary_early C c cl u d _ h hin
+      | bare d => intro e _; left; unfold unaryPath; rfl
+      | seq it d => intro e _; left; unfold unaryPath; rfl
     · rename_i i0 i1 hinp
       rw [hinp] at hin hany
       have hu : (i0.isUnyt || i1.isUnyt) = true := by simpa using hany
